@@ -17,6 +17,8 @@ def main():
     ap.add_argument('--jobs', type=int, default=None)
     ap.add_argument('--limit', type=int, default=None)
     ap.add_argument('--triage', action='store_true')
+    ap.add_argument('--wall', type=float, default=float(os.environ.get('VERIF_WALL', '0') or 0) or None,
+                    help='overall wall cap in seconds: items not started by then are reported as not run')
     a = ap.parse_args()
     # deterministic hashing: re-exec once with a fixed hash seed
     want = os.environ.get('VERIF_HASHSEED', '0')
@@ -30,7 +32,7 @@ def main():
     seed = int(os.environ.get('VERIF_SEED', '0') or 0)
     if a.replay:
         sys.exit(core.replay(a.check, a.replay, print_line=not a.no_line))
-    sys.exit(core.run_check(a.check, a.tier, seed, jobs=a.jobs, limit=a.limit, triage=a.triage))
+    sys.exit(core.run_check(a.check, a.tier, seed, jobs=a.jobs, limit=a.limit, triage=a.triage, wall=a.wall))
 
 
 if __name__ == '__main__':
